@@ -73,7 +73,7 @@ ASSUMPTIONS = [
     "increase are required there",
     "table ages are not within 1e-9 of a rounding tie",
     "'runs to completion' is decided by a budget of 5000 numpy normal draws per case (the largest valid grid design needs < 150) and a "
-    "60 s alarm; a driftless visit walk (distance mean 0, std > 0) that happens to end within the budget counts as completed",
+    "20 s alarm; a driftless visit walk (distance mean 0, std > 0) that happens to end within the budget counts as completed",
     "the generated (unrounded) ages and the noise-free means are read from the recorded arguments of scipy.stats.beta.rvs as called by "
     "the simulate module (one call per feature, pandas Series indexed by (ID, TIME)); when the calls do not have that form the three "
     "oracles relying on them are skipped (counter mu_oracle_skipped)",
@@ -81,7 +81,7 @@ ASSUMPTIONS = [
 ]
 
 DRAW_BUDGET = 5000
-WALL_LIMIT = 60.0
+WALL_LIMIT = 20.0
 IDS5 = ["a", "b", "c", "d", "e"]
 
 BASE_MODEL = {"dim": 2, "ns": 1, "noise": "gaussian-diagonal", "src": "loaded", "level": "catalogue"}
@@ -512,9 +512,11 @@ def attribute(case, ex, memo=None):
     key = (fp, tuple(labels))
     if memo is not None and key in memo:
         return memo[key], 0
-    n = 0
+    n = 1
     found = None
-    if len(tr) > 1:
+    if failure_fingerprint(execute(baseline_of(case))) == fp:
+        found = ["every design"]  # the baseline design on the baseline model fails in the same way
+    elif len(tr) > 1:
         for size in range(1, min(MAX_ATTRIBUTION_SUBSET, len(tr) - 1) + 1):
             for sub in itertools.combinations(range(len(tr)), size):
                 c = baseline_of(case)
